@@ -7,6 +7,7 @@ mod mask;
 mod ops;
 mod pack;
 mod scan;
+mod slices;
 mod vect;
 
 use pg::Graph;
@@ -125,6 +126,15 @@ fn replay(c: &mut Collector, rep: &Value) {
             "f64x4" => ops::replay_ops(&ops::types_f64x4(), case, c),
             o => panic!("unknown vector type {o}"),
         },
+        "slices" => {
+            // small space: the sub-check is re-run and only the replayed signature kept
+            let ctx = Ctx { only: Some(format!("slices/{vec}")), ..Ctx::from_args("C17").0 };
+            let mut all = Collector::new();
+            slices::run(&ctx, &mut all);
+            let want = rep["signature"].as_str().unwrap_or("").to_string();
+            all.viol.retain(|k, _| *k == want);
+            c.merge(all);
+        }
         "hues" => match vec {
             "f32x4" => hue::replay_hues(&hue::types_f32x4(), case, c),
             "f32x8" => hue::replay_hues(&hue::types_f32x8(), case, c),
@@ -184,6 +194,7 @@ fn real_main() -> i32 {
     ops::run_ops(&ctx, &ops::types_f32x8(), &mut total);
     ops::run_ops(&ctx, &ops::types_f64x2(), &mut total);
     ops::run_ops(&ctx, &ops::types_f64x4(), &mut total);
+    slices::run(&ctx, &mut total);
     hue::run_hues(&ctx, &hue::types_f32x4(), &mut total);
     hue::run_hues(&ctx, &hue::types_f32x8(), &mut total);
     hue::run_hues(&ctx, &hue::types_f64x2(), &mut total);
